@@ -14,7 +14,7 @@ OUTSIDE = ["pickle round trips of watched objects (callbacks are local functions
            "assignments (statement: 'carrying the final value')", "assigning callbacks in C04 programs (covered in C03)"]
 ASSUMPTIONS = ["a mismatch is attributed to a listed known finding only if the real trace equals the trace of the model variant that "
                "encodes exactly that deviation (per-parameter coalescing), or the program contains a trigger inside an open batch"]
-OPS = (D.SET_A, D.SET_B, D.TRIGGER_A, D.UPDATE, D.BATCH_ENTER, D.DISCARD_ENTER, D.UPDCTX_ENTER, D.EXIT, D.SET_E, D.TRIGGER_E, D.TRIGGER_AB)
+OPS = (D.SET_A, D.SET_B, D.TRIGGER_A, D.UPDATE, D.BATCH_ENTER, D.DISCARD_ENTER, D.UPDCTX_ENTER, D.EXIT, D.SET_E, D.TRIGGER_E, D.TRIGGER_AB, D.UPDATE_AE)
 NAMES_IDX = (0, 1, 2, 5)
 
 
@@ -99,7 +99,7 @@ def shards(tier):
                 if q and o1 not in (D.BATCH_ENTER, D.DISCARD_ENTER) and not (o1 == D.UPDCTX_ENTER and (n1, n2) == (0, 2)):
                     continue        # quick: programs that open a context first (programs without any context are C03's)
                 for o2 in OPS:
-                    if q and (n1, n2) == (5, 2) and o2 not in (D.SET_E, D.TRIGGER_E, D.UPDATE, D.BATCH_ENTER):
+                    if q and (n1, n2) == (5, 2) and o2 not in (D.SET_E, D.TRIGGER_E, D.UPDATE, D.BATCH_ENTER, D.UPDATE_AE):
                         continue      # quick: the Event-parameter watcher pair only meets programs that touch e early
                     if q and (n1, n2) == (0, 2) and o2 in (D.SET_E, D.TRIGGER_E, D.TRIGGER_AB):
                         continue
